@@ -5,7 +5,7 @@
    the bound explicitly for the recursive walks.  All statements are for the Repaired variant (= the
    code with fixes/C07_*.patch applied; identical to today's code everywhere except a declared PPP
    length below 4).  Each theorem is closed by [exact] of a lemma of Proofs.v. *)
-From OV Require Import Common.Base C07.Model C07.Proofs.
+From OV Require Import Common.Base C07.Model C07.Proofs C07.RoundTrip.
 Local Open Scope N_scope.
 
 (* ---- every modelled entry point, any numeric arguments, any byte strings ---- *)
@@ -234,3 +234,116 @@ Example C07_worker_pool_nonvacuous :
   ps_stuck (fst (pool_run true 16 pool0 (repeat Arrive 17))) = true.
 Proof. exact pool_nonvacuous. Qed.
 Print Assumptions C07_worker_pool_nonvacuous.
+
+(* ======================================================================================================
+   "well-formed input parses to the same values it was built from" — builder models are in RoundTrip.v and are
+   compared byte for byte with the Go builders by the bld* cases; wf_* are boolean predicates on the values. *)
+
+(* ---- PPPoE: TagBuilder, then ParseTags = applying the tags in order; the raw list comes back unchanged ---- *)
+Theorem C07_pppoe_tags_roundtrip :
+  forall l, wf_tags l = true -> parse_tags (build_tags l) = tags_fold l tags0.
+Proof. exact tags_roundtrip. Qed.
+Print Assumptions C07_pppoe_tags_roundtrip.
+Theorem C07_pppoe_tags_roundtrip_raw :
+  forall l t, wf_tags l = true -> parse_tags (build_tags l) = Ok t -> t_raw t = l.
+Proof. exact tags_roundtrip_raw. Qed.
+Print Assumptions C07_pppoe_tags_roundtrip_raw.
+(* vendor-specific value (BBF / Cisco): circuit-id and remote-id are the last sub-options 1 and 2 *)
+Theorem C07_pppoe_vendor_roundtrip :
+  forall vid l c r, vid = 3561 \/ vid = 9 -> wf_subs l = true ->
+  parse_vendor (put32 vid ++ build_subs l) c r = Ok (vendor_fold l c r).
+Proof. exact vendor_roundtrip. Qed.
+Print Assumptions C07_pppoe_vendor_roundtrip.
+Example C07_pppoe_tags_roundtrip_nonvacuous :
+  wf_tags [(257, [105; 115; 112]); (259, [1; 2; 3; 4]); (261, put32 3561 ++ build_subs [(1, [97; 98]); (2, [99])]); (288, [5; 220])] = true /\
+  (exists t, parse_tags (build_tags [(257, [105; 115; 112]); (259, [1; 2; 3; 4]);
+                                      (261, put32 3561 ++ build_subs [(1, [97; 98]); (2, [99])]); (288, [5; 220])]) = Ok t /\
+             t_service t = [105; 115; 112] /\ t_hostuniq t = Some [1; 2; 3; 4] /\ t_circuit t = [97; 98] /\
+             t_remote t = [99] /\ t_maxpayload t = 1500).
+Proof. exact tags_roundtrip_nonvacuous. Qed.
+Print Assumptions C07_pppoe_tags_roundtrip_nonvacuous.
+
+(* ---- L2TP: AppendAVP* then ParseAVPs (hidden bit off, any mandatory bit / vendor / type, values up to 1017 bytes,
+        i.e. AVP lengths up to 1023) ---- *)
+Theorem C07_l2tp_avps_roundtrip :
+  forall l, wf_avps l = true -> parse_avps (build_avps l) = Ok l.
+Proof. exact avps_roundtrip. Qed.
+Print Assumptions C07_l2tp_avps_roundtrip.
+Example C07_l2tp_avps_roundtrip_nonvacuous :
+  wf_avps [mkAvp true false 0 0 [0; 1]; mkAvp false false 3561 65535 (repeat 7 1017)] = true /\
+  lenN (build_avps [mkAvp true false 0 0 [0; 1]; mkAvp false false 3561 65535 (repeat 7 1017)]) = 1031.
+Proof. exact avps_roundtrip_nonvacuous. Qed.
+Print Assumptions C07_l2tp_avps_roundtrip_nonvacuous.
+(* ---- L2TP header: AppendTo(nil, len body) ++ body, then Parse: all 32 combinations of T/L/S/O/P, any version 0..15 ---- *)
+Theorem C07_l2tp_header_roundtrip :
+  forall h body, wf_l2hdr h (lenN body) = true ->
+  l2tp_parse (l2tp_append h (lenN body) ++ body) = Ok (l2_expected h (lenN body), body).
+Proof. exact l2tp_roundtrip. Qed.
+Print Assumptions C07_l2tp_header_roundtrip.
+Example C07_l2tp_header_roundtrip_nonvacuous :
+  wf_l2hdr (mkL2 true true true true false 2 0 7 9 65535 1 3 0) 5 = true /\
+  wf_l2hdr (mkL2 false false false false true 2 0 7 9 0 0 0 0) 0 = true /\
+  l2tp_append (mkL2 true true true true false 2 0 7 9 65535 1 3 0) 5 =
+    [202; 2; 0; 22; 0; 7; 0; 9; 255; 255; 0; 1; 0; 3; 0; 0; 0].
+Proof. exact l2tp_roundtrip_nonvacuous. Qed.
+Print Assumptions C07_l2tp_header_roundtrip_nonvacuous.
+
+(* ---- DHCPv6: any list of code/length/value options, IA_NA / IA_PD payloads, DNS list, a whole Response ---- *)
+Theorem C07_dhcp6_options_roundtrip :
+  forall l, wf_opts6 l = true -> parse_options6 (build_opts6 l) = opts6_fold l opts6_0.
+Proof. exact options6_roundtrip. Qed.
+Print Assumptions C07_dhcp6_options_roundtrip.
+Theorem C07_dhcp6_iana_roundtrip :
+  forall a addr, wf_ia a = true -> ia_addr a = Some addr -> ia_plen a = 0 ->
+  parse_ia false (build_iana a addr) = Ok (Some a).
+Proof. exact iana_roundtrip. Qed.
+Print Assumptions C07_dhcp6_iana_roundtrip.
+Theorem C07_dhcp6_iapd_roundtrip :
+  forall a prefix, wf_ia a = true -> ia_addr a = Some prefix -> parse_ia true (build_iapd a prefix) = Ok (Some a).
+Proof. exact iapd_roundtrip. Qed.
+Print Assumptions C07_dhcp6_iapd_roundtrip.
+Theorem C07_dhcp6_dns_roundtrip :
+  forall l, wf_addrs l = true -> l <> [] -> parse_dns6 (concat l) = Ok l.
+Proof. exact dns_roundtrip. Qed.
+Print Assumptions C07_dhcp6_dns_roundtrip.
+(* Response.Serialize then ParseMessage: client/server id, IA_NA with address, IA_PD with prefix, DNS, status code and
+   any extra options whose codes the parser does not interpret *)
+Theorem C07_dhcp6_message_roundtrip :
+  forall r, wf_resp r = true -> parse_message6 (serialize6 r) = Ok (resp_expected r).
+Proof. exact dhcp6_roundtrip. Qed.
+Print Assumptions C07_dhcp6_message_roundtrip.
+Example C07_dhcp6_message_roundtrip_nonvacuous :
+  wf_resp ex_resp = true /\ lenN (serialize6 ex_resp) = 167.
+Proof. exact dhcp6_roundtrip_nonvacuous. Qed.
+Print Assumptions C07_dhcp6_message_roundtrip_nonvacuous.
+
+(* ---- relay: BuildRelayForward applied any number of times (outermost first), then dhcp6.UnwrapRelay:
+        the client's message comes back together with the parameters of the relay closest to the client ---- *)
+Theorem C07_dhcp6_relay_roundtrip :
+  forall ps msg m, ps <> [] -> wf_chain ps msg = true -> parse_message6 msg = Ok m -> hd 0 msg <> 12 ->
+  unwrap_relay_top (wrap_all ps msg) = Ok (Some m, Some (rf_info (last ps (mkRF 0 [] [] [] [] 0 [])))).
+Proof. exact relay_roundtrip. Qed.
+Print Assumptions C07_dhcp6_relay_roundtrip.
+Example C07_dhcp6_relay_roundtrip_nonvacuous :
+  wf_chain [ex_rf2; ex_rf1] [1; 10; 11; 12; 0; 1; 0; 2; 170; 187] = true /\
+  hd 0 [1; 10; 11; 12; 0; 1; 0; 2; 170; 187] <> 12 /\
+  (exists m, parse_message6 [1; 10; 11; 12; 0; 1; 0; 2; 170; 187] = Ok m /\ o_client (m_opts m) = Some [170; 187]) /\
+  lenN (wrap_all [ex_rf2; ex_rf1] [1; 10; 11; 12; 0; 1; 0; 2; 170; 187]) = 109.
+Proof. exact relay_roundtrip_nonvacuous. Qed.
+Print Assumptions C07_dhcp6_relay_roundtrip_nonvacuous.
+
+(* ---- option 82: any sub-option list, and what relay.BuildOption82 writes ---- *)
+Theorem C07_option82_suboptions_roundtrip :
+  forall l, wf_subs l = true -> parse_sub82 (build_subs l) = Ok (sub82_fold l None None).
+Proof. exact sub82_roundtrip. Qed.
+Print Assumptions C07_option82_suboptions_roundtrip.
+Theorem C07_option82_build_roundtrip :
+  forall circuit remote flags, lenN circuit <? 256 = true -> lenN remote <? 256 = true ->
+  exists body, build_opt82 circuit remote flags = 82 :: byte_of (lenN body) :: body /\
+               parse_sub82 body = Ok (Some circuit, Some remote).
+Proof. exact opt82_roundtrip. Qed.
+Print Assumptions C07_option82_build_roundtrip.
+Example C07_option82_build_roundtrip_nonvacuous :
+  build_opt82 [101; 116; 104; 49] [109; 97; 99] (Some 1) = [82; 14; 1; 4; 101; 116; 104; 49; 2; 3; 109; 97; 99; 10; 1; 1].
+Proof. exact opt82_roundtrip_nonvacuous. Qed.
+Print Assumptions C07_option82_build_roundtrip_nonvacuous.
